@@ -7,8 +7,9 @@
   named filters may be related to each other in any way (equal, nested, listed several times).
 
   For the `anything` aliases `_convert_aliases` de-duplicates the subjects (`dedupSubjects`); the specification keeps
-  them all. When every removed subject lies below a NAMED subject, the rule on the retained subjects has the same
-  verdict and the same violating imports (spec-level lemma `others_dedup`).
+  them all. Every removed subject lies below a NAMED subject (since the repair of F-C12a this is how `dedupSubjects`
+  chooses what to remove; before it, it was the hypothesis `dedupSafe`), so the rule on the retained subjects has the
+  same verdict and the same violating imports (spec-level lemma `others_dedup`).
 -/
 import Bridge.Abs
 import PtaProofs.Lemmas.Semantics
@@ -566,7 +567,7 @@ theorem ruleCtx'_of (a : Arch) (r : RuleSpec) (hpf : parentFree r = true) (hname
 /-! ### the subjects `_convert_aliases` retains -/
 
 theorem mem_keptSubjects (S : List SFilter) (m : SFilter) :
-    m ∈ keptSubjects S ↔ m ∈ S ∧ ∀ o ∈ S, sdesc o.id m.id = false := by
+    m ∈ keptSubjects S ↔ m ∈ S ∧ ∀ o ∈ S, (!o.isSub && sdesc o.id m.id) = false := by
   simp only [keptSubjects, keepSubject, List.mem_filter, Bool.not_eq_true', List.any_eq_false, Bool.not_eq_true]
 
 theorem keptSubjects_subset (S : List SFilter) : ∀ m ∈ keptSubjects S, m ∈ S :=
@@ -583,8 +584,8 @@ theorem dedupSubjects_map (S : List SFilter) (hS : ∀ f ∈ S, nameWF f.id = tr
   congr 1
   apply any_congr_mem
   intro o ho
-  simp only [Function.comp, compileFilter_id]
-  exact isStrictSub_render _ _ (hS o ho) (hS m hm)
+  simp only [Function.comp, compileFilter_id, compileFilter_isParent]
+  rw [isStrictSub_render _ _ (hS o ho) (hS m hm)]
 
 theorem sdesc_length {x n : Name} (h : sdesc x n = true) : x.length < n.length := by
   obtain ⟨hp, hne⟩ := (sdesc_iff _ _).1 h
@@ -596,9 +597,9 @@ theorem sdesc_length {x n : Name} (h : sdesc x n = true) : x.length < n.length :
 theorem desc_trans {x y z : Name} (h1 : desc x y = true) (h2 : desc y z = true) : desc x z = true :=
   (desc_iff _ _).2 (((desc_iff _ _).1 h1).trans ((desc_iff _ _).1 h2))
 
-/-- every subject is retained or lies below a retained NAMED subject -/
-theorem kept_cover (S : List SFilter)
-    (hsafe : ∀ m ∈ S, (∃ o ∈ S, sdesc o.id m.id = true) → ∃ o ∈ S, o.isSub = false ∧ sdesc o.id m.id = true) :
+/-- every subject is retained or lies below a retained NAMED subject (unconditionally since the repair of F-C12a:
+    only a subject given by name makes `_convert_aliases` remove another subject) -/
+theorem kept_cover (S : List SFilter) :
     ∀ m ∈ S, m ∈ keptSubjects S ∨ ∃ k ∈ keptSubjects S, k.isSub = false ∧ desc k.id m.id = true := by
   have key : ∀ n, ∀ m ∈ S, m.id.length ≤ n →
       m ∈ keptSubjects S ∨ ∃ k ∈ keptSubjects S, k.isSub = false ∧ desc k.id m.id = true := by
@@ -609,22 +610,23 @@ theorem kept_cover (S : List SFilter)
       left
       refine (mem_keptSubjects S m).2 ⟨hm, fun o _ => ?_⟩
       cases h : sdesc o.id m.id
-      · rfl
+      · exact Bool.and_false _
       · have := sdesc_length h; omega
     | succ n ih =>
       intro m hm hl
       by_cases hk : m ∈ keptSubjects S
       · exact .inl hk
       · right
-        have hex : ∃ o ∈ S, sdesc o.id m.id = true := by
+        have hex : ∃ o ∈ S, o.isSub = false ∧ sdesc o.id m.id = true := by
           apply Classical.byContradiction
           intro hno
           apply hk
           refine (mem_keptSubjects S m).2 ⟨hm, fun o ho => ?_⟩
-          cases h : sdesc o.id m.id
+          cases h : (!o.isSub && sdesc o.id m.id)
           · rfl
-          · exact absurd ⟨o, ho, h⟩ hno
-        obtain ⟨o, ho, hon, hsd⟩ := hsafe m hm hex
+          · rw [Bool.and_eq_true, Bool.not_eq_true'] at h
+            exact absurd ⟨o, ho, h.1, h.2⟩ hno
+        obtain ⟨o, ho, hon, hsd⟩ := hex
         have hlt := sdesc_length hsd
         have hd : desc o.id m.id = true := (desc_iff _ _).2 ((sdesc_iff _ _).1 hsd).1
         rcases ih o ho (by omega) with h1 | ⟨k, hk', hkn, hkd⟩
@@ -644,11 +646,9 @@ theorem mem_others (a : Arch) (dir : Bool) (s : SFilter) (os : List SFilter) (e 
   simp only [others, List.mem_filter, Bool.and_eq_true, Bool.not_eq_true', List.all_eq_true, and_assoc]
 
 /-- the imports violating `S should_not … anything` are the imports violating the rule on the retained subjects -/
-theorem others_dedup (a : Arch) (dir : Bool) (S : List SFilter)
-    (hsafe : ∀ m ∈ S, (∃ o ∈ S, sdesc o.id m.id = true) → ∃ o ∈ S, o.isSub = false ∧ sdesc o.id m.id = true)
-    (e : Name × Name) :
+theorem others_dedup (a : Arch) (dir : Bool) (S : List SFilter) (e : Name × Name) :
     (∃ s ∈ keptSubjects S, e ∈ others a dir s (keptSubjects S)) ↔ (∃ s ∈ S, e ∈ others a dir s S) := by
-  have hcov := kept_cover S hsafe
+  have hcov := kept_cover S
   have hall : ∀ far, (∀ o ∈ keptSubjects S, o.mem far = false) → ∀ o ∈ S, o.mem far = false := by
     intro far h o ho
     rcases hcov o ho with hk | ⟨k, hk, hkn, hkd⟩
@@ -671,33 +671,10 @@ theorem others_dedup (a : Arch) (dir : Bool) (S : List SFilter)
       · rw [← mem_named hkn]; exact h3' k hk
 
 theorem keptSubjects_ne_nil (S : List SFilter) (hne : S ≠ []) : keptSubjects S ≠ [] := by
-  have key : ∀ n, ∀ m ∈ S, m.id.length ≤ n → ∃ k, k ∈ keptSubjects S := by
-    intro n
-    induction n with
-    | zero =>
-      intro m hm hl
-      refine ⟨m, (mem_keptSubjects S m).2 ⟨hm, fun o _ => ?_⟩⟩
-      cases h : sdesc o.id m.id
-      · rfl
-      · have := sdesc_length h; omega
-    | succ n ih =>
-      intro m hm hl
-      by_cases hk : m ∈ keptSubjects S
-      · exact ⟨m, hk⟩
-      · have hex : ∃ o ∈ S, sdesc o.id m.id = true := by
-          apply Classical.byContradiction
-          intro hno
-          apply hk
-          refine (mem_keptSubjects S m).2 ⟨hm, fun o ho => ?_⟩
-          cases h : sdesc o.id m.id
-          · rfl
-          · exact absurd ⟨o, ho, h⟩ hno
-        obtain ⟨o, ho, hsd⟩ := hex
-        have := sdesc_length hsd
-        exact ih o ho (by omega)
   obtain ⟨m, hm⟩ := List.exists_mem_of_ne_nil S hne
-  obtain ⟨k, hk⟩ := key _ m hm (Nat.le_refl _)
-  exact List.ne_nil_of_mem hk
+  rcases kept_cover S m hm with hk | ⟨k, hk, _⟩
+  · exact List.ne_nil_of_mem hk
+  · exact List.ne_nil_of_mem hk
 
 /-! ### the `anything` aliases: model side and specification side -/
 
@@ -726,10 +703,9 @@ theorem verdict_anything (a : Arch) (r : RuleSpec) (ha : r.anything = true) (hv 
   unfold verdict RuleSpec.effObjects RuleSpec.effExc
   simp only [ha, hv, if_true, Bool.true_or]
 
-theorem verdict_deAlias_eq (a : Arch) (r : RuleSpec) (ha : r.anything = true) (hv : r.verb = .shouldNot)
-    (hsafe : dedupSafe r = true) : verdict a (deAlias r) = verdict a r := by
-  have hs := (dedupSafe_iff r).1 hsafe ha
-  have hd := others_dedup a r.importDir r.subjects hs
+theorem verdict_deAlias_eq (a : Arch) (r : RuleSpec) (ha : r.anything = true) (hv : r.verb = .shouldNot) :
+    verdict a (deAlias r) = verdict a r := by
+  have hd := others_dedup a r.importDir r.subjects
   rw [verdict_anything a r ha hv]
   have : verdict a (deAlias r) =
       (keptSubjects r.subjects).all fun s => (others a r.importDir s (keptSubjects r.subjects)).isEmpty := rfl
@@ -744,10 +720,9 @@ theorem verdict_deAlias_eq (a : Arch) (r : RuleSpec) (ha : r.anything = true) (h
     exact h s hs' e hse
 
 theorem violating_deAlias_iff (a : Arch) (r : RuleSpec) (ha : r.anything = true) (hv : r.verb = .shouldNot)
-    (hsafe : dedupSafe r = true) (x : Atom) :
+    (x : Atom) :
     x ∈ (violating a (deAlias r)).flatMap SItem.atoms ↔ x ∈ (violating a r).flatMap SItem.atoms := by
-  have hs := (dedupSafe_iff r).1 hsafe ha
-  have hd := others_dedup a r.importDir r.subjects hs
+  have hd := others_dedup a r.importDir r.subjects
   rw [mem_violating, mem_violating]
   have e1 : (deAlias r).verb = .shouldNot := rfl
   have e2 : (deAlias r).effExc = true := rfl
@@ -781,43 +756,60 @@ theorem ruleCtx'_deAlias {a : Arch} {r : RuleSpec} (ctx : RuleCtx' a r) :
 
 /-! ### the general oracle lemmas -/
 
-theorem verdict_spec_adm_lemma (mt : Str → Str → Bool) (a : Arch) (g : PGraph Str) (hg : GraphOf a g)
-    (hwf : a.wf = true) (r : RuleSpec) (hadm : admissible r = true) (hnames : r.namesIn a = true)
+/-- since the repair of F-C12a `parentFree` alone suffices (the `dedupSafe` half of `admissible` is not used) -/
+theorem verdict_spec_pf_lemma (mt : Str → Str → Bool) (a : Arch) (g : PGraph Str) (hg : GraphOf a g)
+    (hwf : a.wf = true) (r : RuleSpec) (hpf : parentFree r = true) (hnames : r.namesIn a = true)
     (hs : r.subjects ≠ []) (ho : r.anything = true ∨ r.objects ≠ [])
     (hany : r.anything = true → r.verb = .shouldNot) :
     verdictOf mt g (compile r) = VClass.ofBool (verdict a r) := by
   have hw := archWF_of_wf a hwf
-  unfold admissible at hadm
-  rw [Bool.and_eq_true] at hadm
-  have ctx := ruleCtx'_of a r hadm.1 hnames
+  have ctx := ruleCtx'_of a r hpf hnames
   cases ha : r.anything
   · exact verdict_core mt hw hg r ctx hs ho hany (by rw [ha]; intro h; cases h)
   · have hv := hany ha
     have hS : ∀ f ∈ r.subjects, f.id ∈ a.nodes := fun f hf => ctx.names f (List.mem_append_left _ hf)
     unfold verdictOf
-    rw [assertApplies_deAlias mt hw hg r hS ha hv, ← verdict_deAlias_eq a r ha hv hadm.2]
+    rw [assertApplies_deAlias mt hw hg r hS ha hv, ← verdict_deAlias_eq a r ha hv]
     exact verdict_core mt hw hg (deAlias r) (ruleCtx'_deAlias ctx) (keptSubjects_ne_nil _ hs)
       (.inr (keptSubjects_ne_nil _ hs)) (fun h => by cases h) (fun h => by cases h)
 
-theorem report_spec_adm_lemma (mt : Str → Str → Bool) (a : Arch) (g : PGraph Str) (hg : GraphOf a g)
-    (hwf : a.wf = true) (r : RuleSpec) (hadm : admissible r = true) (hnames : r.namesIn a = true)
+theorem report_spec_pf_lemma (mt : Str → Str → Bool) (a : Arch) (g : PGraph Str) (hg : GraphOf a g)
+    (hwf : a.wf = true) (r : RuleSpec) (hpf : parentFree r = true) (hnames : r.namesIn a = true)
     (hs : r.subjects ≠ []) (ho : r.anything = true ∨ r.objects ≠ [])
     (hany : r.anything = true → r.verb = .shouldNot) (items : List Item)
     (h : (assertApplies mt (compile r) g).2 = .fail items) :
     ∀ x, x ∈ items.flatMap Item.atoms ↔ x ∈ (violating a r).flatMap SItem.atoms := by
   have hw := archWF_of_wf a hwf
-  unfold admissible at hadm
-  rw [Bool.and_eq_true] at hadm
-  have ctx := ruleCtx'_of a r hadm.1 hnames
+  have ctx := ruleCtx'_of a r hpf hnames
   cases ha : r.anything
   · exact report_core mt hw hg r ctx hs ho hany (by rw [ha]; intro h; cases h) items h
   · have hv := hany ha
     have hS : ∀ f ∈ r.subjects, f.id ∈ a.nodes := fun f hf => ctx.names f (List.mem_append_left _ hf)
     rw [assertApplies_deAlias mt hw hg r hS ha hv] at h
     intro x
-    rw [← violating_deAlias_iff a r ha hv hadm.2 x]
+    rw [← violating_deAlias_iff a r ha hv x]
     exact report_core mt hw hg (deAlias r) (ruleCtx'_deAlias ctx) (keptSubjects_ne_nil _ hs)
       (.inr (keptSubjects_ne_nil _ hs)) (fun h => by cases h) (fun h => by cases h) items h x
+
+theorem admissible_parentFree (r : RuleSpec) (hadm : admissible r = true) : parentFree r = true := by
+  unfold admissible at hadm
+  rw [Bool.and_eq_true] at hadm
+  exact hadm.1
+
+theorem verdict_spec_adm_lemma (mt : Str → Str → Bool) (a : Arch) (g : PGraph Str) (hg : GraphOf a g)
+    (hwf : a.wf = true) (r : RuleSpec) (hadm : admissible r = true) (hnames : r.namesIn a = true)
+    (hs : r.subjects ≠ []) (ho : r.anything = true ∨ r.objects ≠ [])
+    (hany : r.anything = true → r.verb = .shouldNot) :
+    verdictOf mt g (compile r) = VClass.ofBool (verdict a r) :=
+  verdict_spec_pf_lemma mt a g hg hwf r (admissible_parentFree r hadm) hnames hs ho hany
+
+theorem report_spec_adm_lemma (mt : Str → Str → Bool) (a : Arch) (g : PGraph Str) (hg : GraphOf a g)
+    (hwf : a.wf = true) (r : RuleSpec) (hadm : admissible r = true) (hnames : r.namesIn a = true)
+    (hs : r.subjects ≠ []) (ho : r.anything = true ∨ r.objects ≠ [])
+    (hany : r.anything = true → r.verb = .shouldNot) (items : List Item)
+    (h : (assertApplies mt (compile r) g).2 = .fail items) :
+    ∀ x, x ∈ items.flatMap Item.atoms ↔ x ∈ (violating a r).flatMap SItem.atoms :=
+  report_spec_pf_lemma mt a g hg hwf r (admissible_parentFree r hadm) hnames hs ho hany items h
 
 /-! ### the fluent chain reaches `compile r` -/
 
